@@ -14,6 +14,7 @@ import (
 	"crypto/sha512"
 	"encoding/binary"
 	"fmt"
+	xcurve "golang.org/x/crypto/curve25519"
 	"os"
 	"os/exec"
 	"path/filepath"
@@ -126,6 +127,14 @@ func main() {
 	r.Workers = 1
 	ctops.Init(true)
 	secs := secrets(r, r.Pick(64, 1000))
+	// self-check of the precomputed structured peer values (against x/crypto, not the library under test)
+	for i, sh := range ctops.PeerStructShapes {
+		s2 := ctops.Secrets(3)[2]
+		out, err := xcurve.X25519(s2[:32], ctops.PeerStruct(i))
+		if err != nil || !bytes.Equal(out[sh[0]:sh[1]], make([]byte, sh[1]-sh[0])) || bytes.Equal(out, make([]byte, 32)) {
+			mon.Fatalf("structured peer value %d does not give the advertised result shape: %x %v", i, out, err)
+		}
+	}
 	w := sha512.Sum512([]byte("warm"))
 	var warm [64]byte
 	copy(warm[:], w[:])
@@ -145,6 +154,21 @@ func main() {
 		ref, _ := snapshot(op, secs[0])
 		again, _ := snapshot(op, secs[0])
 		if ref != again {
+			// ref ran after a call with another secret, again after a call with the same one. If exactly that pattern
+			// repeats, the executed blocks depend on whether the secret equals the previous call's secret - a
+			// comparison of secrets whose outcome shows in the control flow. Otherwise it is noise.
+			snapshot(op, warm)
+			r2, _ := snapshot(op, secs[0])
+			a2, _ := snapshot(op, secs[0])
+			snapshot(op, secs[1])
+			r3, _ := snapshot(op, secs[0])
+			if r2 == ref && a2 == again && r3 == ref {
+				if !isControl {
+					r.Violate("not-constant-time/"+name+"/depends-on-previous-secret", fmt.Sprintf("%s: the executed basic blocks differ between a call that follows one with the SAME secret and a call that follows one with another secret (reproduced twice): the secret is compared with a remembered one and the result steers control flow", name), Case{Op: name, SecretA: mon.Hex(secs[0][:]), SecretB: mon.Hex(secs[0][:])})
+				}
+				r.Hist("block-counter/operations")
+				continue
+			}
 			r.Inconclusive(name + ": two runs with the same secret give different block counts (not comparable)")
 			continue
 		}
